@@ -1253,6 +1253,9 @@ func TestVerif_X07Hist(t *testing.T) {
 	seed := x07Seed()
 	n := 0
 	x07ReadLines(t, "histories.ndjson", func(b []byte) {
+		if os.Getenv("VERIF_NO_GATED") != "" {
+			return
+		}
 		var h x07History
 		if err := json.Unmarshal(b, &h); err != nil {
 			t.Fatalf("x07: bad history: %v", err)
